@@ -94,6 +94,36 @@ class _Expr(ast.NodeTransformer):
             return ast.copy_location(ast.Constant(node.left.value + node.right.value), node)
         return node
 
+    def visit_JoinedStr(self, node):
+        """C10: f-string -> %-format with the same template (the form every rule about message / escape templates reads).
+        Only simple fields: {x}, {x!r}, {x!s}, {x:<printf-like spec>}."""
+        self.generic_visit(node)
+        tmpl, vals = [], []
+        for v in node.values:
+            if isinstance(v, ast.Constant) and isinstance(v.value, str):
+                tmpl.append(v.value.replace('%', '%%'))
+            elif isinstance(v, ast.FormattedValue):
+                spec = ''
+                if v.format_spec is not None:
+                    if not (isinstance(v.format_spec, ast.JoinedStr) and all(isinstance(x, ast.Constant) for x in v.format_spec.values)):
+                        return node
+                    spec = ''.join(x.value for x in v.format_spec.values)
+                if v.conversion == ord('r') and not spec:
+                    tmpl.append('%r')
+                elif v.conversion in (-1, ord('s')) and not spec:
+                    tmpl.append('%s')
+                elif v.conversion == -1 and spec and spec[-1] in 'dxXofeEgGc' and all(c in '0123456789.+- #' for c in spec[:-1]):
+                    tmpl.append('%' + spec)
+                else:
+                    return node
+                vals.append(v.value)
+            else:
+                return node
+        if not vals:
+            return ast.copy_location(ast.Constant(''.join(tmpl).replace('%%', '%')), node)
+        right = vals[0] if len(vals) == 1 and not isinstance(vals[0], ast.Tuple) else ast.Tuple(elts=vals, ctx=ast.Load())
+        return ast.copy_location(ast.BinOp(left=ast.Constant(''.join(tmpl)), op=ast.Mod(), right=right), node)
+
     def visit_Lambda(self, node):
         return node
 
